@@ -22,8 +22,13 @@ current_cer: ContextVar[Optional[ContentEvaluationResult]] = ContextVar("vf_curr
 _schema = ContentEvaluationResultSchema()
 
 
+provider_log: Optional[list] = None  # when a list: the ContentEvaluationResult objects the evaluations were handed, in call order (C12)
+
+
 def _provider():
     cer = current_cer.get()
+    if provider_log is not None:
+        provider_log.append(cer)
     return EvaluatableData(body=_schema.dump(cer) if cer is not None else {}, edifact_format=FMT, edifact_format_version=current_fv.get())
 
 
